@@ -264,7 +264,11 @@ def history(profile, max_ops=30, min_ops=1):
         "bad_insert": op_bad_insert(), "bad_read": op_bad_read(), "reindex": op_reindex(), "reopen": op_reopen(), "probe": op_probe(), "getters": op_getters(), "move": op_move(),
     }
     # half of the query-carrying operations derive (part of) their query from a stored point, so that they hit
-    table["probe"] = st.one_of(op_probe(), op_probe_hit(), op_probe_hit(), op_probe_twin())
+    # (names that differ by case only: a query about the upper-cased name, asked through one of the two measurements)
+    case_probe = st.tuples(st.sampled_from(["M1", "m1", None]), st.sampled_from(["==", "!="]), st.sampled_from(VIAS_M)).map(
+        lambda t: ["probe", ["leaf", "meas", [["map", "upper"]], ["cmp", t[1], "M1"]], t[0], "measurement", t[2]]
+    )
+    table["probe"] = st.one_of(op_probe(), op_probe_hit(), op_probe_hit(), op_probe_twin(), op_probe(), op_probe_hit(), op_probe_hit(), op_probe_twin(), case_probe)
     table["insert"] = st.one_of(op_insert(), op_insert(), op_insert(), op_insert(), op_insert(), op_insert(), op_insert_stamped(), op_insert_reuse())
     table["remove"] = st.one_of(op_remove(), op_remove_hit(), op_remove_hit())
     table["update"] = st.one_of(op_update(), op_update_hit(), op_update_hit(), op_update(), op_update_hit(), op_update_hit(), op_update_same_tags())
